@@ -386,3 +386,99 @@ Example c08_cache_helper_inhabited :
   map (fun k => alookup p (crash_state (lower_atomic_at OtherFs) f [EWrite p [lit "new"]] k)) [3; 4; 5; 6; 7] =
     [Some (File [lit "old"]); Some (File []); Some (File [lit "new"]); Some (File [lit "new"]); Some (File [lit "new"])].
 Proof. vm_compute. split; reflexivity. Qed.
+
+(* ================================================================================================
+   The product cache when the command is ended by an exception, and when it is killed during the
+   rebuild of the cache it performs at start-up (Model/CrashCache.v).
+   1. SIGINT reaches python as KeyboardInterrupt: the command unwinds through the with statement of
+      utils.AtomicFile.  As the helper is written (the statements after its yield are skipped when the
+      body raised) no name but the temporary one changes, whichever call the exception replaces; a helper
+      whose exit installs unconditionally leaves an empty cache file that the loader cannot read.
+   2. The rebuild persists only complete files (autosave off): every cache file that passes for newer
+      than the database holds exactly the rows of its flavor at every crash point, so a later reader
+      lists what the database holds whether it believes the cache or not.  With autosave on the partial
+      files are believed.
+   ================================================================================================ *)
+From Eupsv Require Import Model.CrashCache Proofs.CrashCache.
+
+Theorem interrupted_helper_installs_nothing f p c k q : is_tmp q = false -> k < length c + 3 ->
+  alookup q (interrupted SkipOnRaise f p c k) = alookup q f.
+Proof. exact (interrupted_skip_untouched f p c k q). Qed.
+Print Assumptions interrupted_helper_installs_nothing.
+
+Theorem interrupted_helper_old_or_new f p c k : clean f -> is_tmp p = false ->
+  alookup p (interrupted SkipOnRaise f p c k) = alookup p f \/
+  alookup p (interrupted SkipOnRaise f p c k) = Some (File c).
+Proof. exact (interrupted_skip_old_or_new f p c k). Qed.
+Print Assumptions interrupted_helper_old_or_new.
+
+Theorem interrupted_helper_frame f p c k q : clean f -> is_tmp q = false -> q <> p ->
+  alookup q (interrupted SkipOnRaise f p c k) = alookup q f.
+Proof. exact (interrupted_skip_frame f p c k q). Qed.
+Print Assumptions interrupted_helper_frame.
+
+(* so the loader of the cache never meets an empty file it did not meet before the command *)
+Theorem interrupted_helper_loader f p c k : clean f -> is_tmp p = false -> c <> [] ->
+  load_cache (alookup p f) <> Err Crash ->
+  load_cache (alookup p (interrupted SkipOnRaise f p c k)) <> Err Crash.
+Proof.
+  intros Hc Hp Hn Ho. destruct (interrupted_skip_old_or_new f p c k Hc Hp) as [E|E]; rewrite E; [exact Ho|].
+  destruct c; [congruence|discriminate].
+Qed.
+Print Assumptions interrupted_helper_loader.
+
+(* a helper that installs the temporary file in its exit whatever happened: interrupted at its first write
+   it replaces a readable cache by an empty one *)
+Theorem commit_on_raise_refuted :
+  let p := lit "user/_caches_/generic.pickleDB1_3_0" in
+  let f := [(p, File [lit "old"])] in
+  clean f /\ is_tmp p = false /\ load_cache (alookup p f) = Ok [lit "old"] /\
+  alookup p (interrupted CommitOnRaise f p [lit "new1"; lit "new2"] 1) = Some (File []) /\
+  load_cache (alookup p (interrupted CommitOnRaise f p [lit "new1"; lit "new2"] 1)) = Err Crash /\
+  alookup p (interrupted CommitOnRaise f p [lit "new1"; lit "new2"] 2) = Some (File [lit "new1"]).
+Proof.
+  cbv zeta. split.
+  - intros k Hk. cbn [alookup]. destruct (str_eqb k _) eqn:E; [|reflexivity].
+    apply str_eqb_eq in E. subst k. vm_compute in Hk. discriminate.
+  - vm_compute. repeat split; reflexivity.
+Qed.
+Print Assumptions commit_on_raise_refuted.
+
+Theorem rebuild_keeps_fresh_caches_complete fls db cs k : sound db cs ->
+  sound db (crash_caches false fls db cs k).
+Proof. exact (sound_crash_caches fls db cs k). Qed.
+Print Assumptions rebuild_keeps_fresh_caches_complete.
+
+Theorem reader_after_killed_rebuild_lists_the_database fls db cs k fl : sound db cs ->
+  reader_answer fls db (crash_caches false fls db cs k) fl = rows_of fl db.
+Proof. intro H. apply sound_reader. now apply sound_crash_caches. Qed.
+Print Assumptions reader_after_killed_rebuild_lists_the_database.
+
+(* autosave on during the rebuild: killed after the first version of the last-listed product was persisted, the
+   files of both flavors are new, name every product, and lack its second version *)
+Theorem rebuild_with_autosave_refuted :
+  let L := lit "Linux64" in let G := lit "generic" in
+  let db := [(L, lit "a", lit "1"); (L, lit "a", lit "2"); (G, lit "b", lit "1"); (G, lit "b", lit "2")] in
+  sound db [] /\
+  reader_answer [L; G] db (crash_caches true [L; G] db [] 3) G = [(lit "b", lit "1")] /\
+  rows_of G db = [(lit "b", lit "1"); (lit "b", lit "2")] /\
+  reader_answer [L; G] db (crash_caches true [L; G] db [] 3) L = rows_of L db /\
+  reader_answer [L; G] db (crash_caches true [L; G] db [] 2) G = rows_of G db.
+Proof. cbv zeta. split; [intros fl rows E; discriminate|]. vm_compute. repeat split; reflexivity. Qed.
+Print Assumptions rebuild_with_autosave_refuted.
+
+Example c08_cache_rebuild_inhabited :
+  let L := lit "Linux64" in let G := lit "generic" in
+  let db := [(L, lit "a", lit "1"); (G, lit "b", lit "1"); (G, lit "b", lit "2")] in
+  let cs := [(L, (true, [(lit "a", lit "1")])); (G, (false, [(lit "b", lit "1")]))] in
+  sound db cs /\
+  map (fun k => reader_answer [L; G] db (crash_caches false [L; G] db cs k) G) [0; 1; 2] =
+    [rows_of G db; rows_of G db; rows_of G db] /\
+  map (fun k => cache_rows (crash_caches false [L; G] db cs k) G) [0; 1; 2] = [None; None; Some (rows_of G db)].
+Proof.
+  cbv zeta. split.
+  - intros fl rows E. cbn [alookup] in E. destruct (str_eqb fl (lit "Linux64")) eqn:E1.
+    + apply str_eqb_eq in E1. subst fl. inversion E. reflexivity.
+    + destruct (str_eqb fl (lit "generic")); discriminate.
+  - vm_compute. split; reflexivity.
+Qed.
